@@ -97,6 +97,22 @@ def extract(repo):
     tmp_keep = isinstance(kw.get("delete"), ast.Constant) and kw["delete"].value is False
     # the exists check: `if not overwrite and os.path.isfile(...)`: raise ArtifactExistsError
     checks = [_dotted(c.func) for c in _calls(la) if _dotted(c.func) in ("os.path.isfile", "os.path.exists")]
+    # cache mirroring: after `self._extract(fo, ...)` inside `with Tee(...) as fo:` the rest of the
+    # upstream file is drained (`while fo.read(..): pass`), so that the mirror receives the whole file
+    dl = find(base, "_downloadPackage")
+    drains = False
+    for w in ast.walk(dl):
+        if isinstance(w, ast.With) and any(isinstance(i.context_expr, ast.Call) and _dotted(i.context_expr.func) == "Tee"
+                                           and isinstance(i.optional_vars, ast.Name) for i in w.items):
+            var = [i.optional_vars.id for i in w.items if isinstance(i.optional_vars, ast.Name)][-1]
+            seen_extract = False
+            for st in w.body:
+                if isinstance(st, ast.Expr) and isinstance(st.value, ast.Call) and _dotted(st.value.func) == "self._extract":
+                    seen_extract = True
+                elif seen_extract and isinstance(st, ast.While) and isinstance(st.test, ast.Call) \
+                        and _dotted(st.test.func) == var + ".read" and not st.orelse \
+                        and all(isinstance(b, ast.Pass) for b in st.body):
+                    drains = True
     out = [HEADER % "c09", "namespace Consts.C09",
            "def artifactSuffix : String := " + lean_str(sfx["ARTIFACT_SUFFIX"]),
            "def buildidSuffix : String := " + lean_str(sfx["BUILDID_SUFFIX"]),
@@ -111,6 +127,7 @@ def extract(repo):
            "def openChecks : List String := " + lean_str_list(checks),
            "def tmpInDestDir : Bool := " + _lean_bool(tmp_in_dest),
            "def tmpKept : Bool := " + _lean_bool(tmp_keep),
+           "def mirrorDrains : Bool := " + _lean_bool(drains),
            "end Consts.C09", ""]
     return "\n".join(out)
 
